@@ -472,6 +472,7 @@ def synthetic_positions(ctx):
                 b2[sq] = pc.upper()
                 if pc == 'p' and (sq < 8 or sq >= 56): continue
                 out.append(board_to_rows(b2) + ' b KQkq - 0 1')
+    out += pawn_families(ctx)
     # keep only positions the rules accept as legal (side not to move not in check)
     good = []
     for f in out:
@@ -482,6 +483,34 @@ def synthetic_positions(ctx):
                 good.append(f)
     ctx.count('synthetic-positions', len(good))
     return good
+
+def pawn_families(ctx):
+    """for every square a pawn can stand on and both colours: the pawn with enemy pieces on both capture squares,
+    with the push square free / blocked, and the double-push square free / blocked (all 48 x 2 pawn placements)"""
+    out = []
+    for sq in range(8, 56):
+        f, r = sq % 8, sq // 8
+        for white in (True, False):
+            dr = -1 if white else 1
+            for variant in range(3):
+                b = ['1'] * 64
+                b[sq] = 'P' if white else 'p'
+                enemy = 'nrbq' if white else 'NRBQ'
+                tr = r + dr
+                for k, df in enumerate((-1, 1)):
+                    if 0 <= f + df < 8:
+                        b[8 * tr + f + df] = enemy[(sq + k + variant) % 4]
+                if variant == 1:
+                    b[8 * tr + f] = enemy[0]                      # push square blocked
+                if variant == 2 and 0 <= r + 2 * dr < 8:
+                    b[8 * (r + 2 * dr) + f] = enemy[1]            # double-push square blocked
+                # kings: first placement that keeps clear of the pattern
+                for wk, bk in ((63, 0), (56, 7), (60, 4), (32, 39), (24, 31), (59, 3)):
+                    if b[wk] == '1' and b[bk] == '1' and abs(wk % 8 - f) > 1 or abs(bk % 8 - f) > 1:
+                        if b[wk] != '1' or b[bk] != '1': continue
+                        b2 = list(b); b2[wk] = 'K'; b2[bk] = 'k'
+                        out.append(board_to_rows(b2) + (' w' if white else ' b') + ' - - 0 1')
+    return out
 
 def compress(row):
     out, run = '', 0
@@ -730,6 +759,15 @@ def check_C05(ctx):
         ab = ctx.model.ask('oracle absfen ' + out[0])
         if len(ab) != 2 or ab[0] != f2 or ab[1].strip() != 'wf':
             ctx.oracle_fail('fen-not-reconstructed', f2, {'engine_fen': ab[0] if ab else None, 'defects': ab[1] if len(ab) > 1 else None})
+    # the strings the engine accepts are those of its legal list: compare that list with the rules on a wide stream
+    for fen in ctx.gen.positions(500 if ctx.quick else 20000) + synthetic_positions(ctx):
+        o = ctx.corr('gen ' + fen)
+        info = legal_info(ctx, fen)
+        if not info or not o or o[0].startswith('!'): continue
+        classify(ctx, fen, *info)
+        acc = rows(o).get('uci', '').split()
+        if sorted(acc) != sorted(info[0]):
+            ctx.oracle_fail('accepted-move-strings-differ-from-legal-moves', fen, sym_diff(acc, info[0]))
     # acceptance of move strings: exactly the legal ones, each with its own string
     alphabet_moves = lambda: [a + b + c + d + e for a in 'abcdefgh' for b in '12345678' for c in 'abcdefgh' for d in '12345678' for e in ['', 'q', 'n', 'r', 'b']]
     pool = None
@@ -850,6 +888,22 @@ def check_C16(ctx):
         v4 = ctx.corr('eval ' + fmt_dump(mirror_dump(g)))
         if v4 != v:
             ctx.oracle_fail('eval-not-colour-symmetric', {'fen': fen, 'mirror_dump': fmt_dump(mirror_dump(g))}, {'value': val, 'mirror': v4})
+    # positions reached by play must evaluate like the same position set up from its FEN (placement and mover only)
+    for base, moves, fs in ctx.gen.games(150 if ctx.quick else 4000, maxlen=80) + [
+            ('r3k2r/pppppppp/8/8/8/8/PPPPPPPP/R3K2R w KQkq - 0 1', 'e1c1 e8c8 c1b1 c8b8'.split(), None),
+            ('r3k2r/pppppppp/8/8/8/8/PPPPPPPP/R3K2R w KQkq - 0 1', 'e1g1 e8g8 g1h1 g8h8'.split(), None)]:
+        if not moves: continue
+        out = ctx.rust.ask(f'play {base} ; ' + ' '.join(moves))
+        spec = ctx.model.ask(f'oracle play {base} ; ' + ' '.join(moves))
+        ctx.count('played-games')
+        for line, f in list(zip(out, spec))[1:]:
+            if line.startswith('!') or f.startswith('!'): break
+            d1 = line.split(' | ')[0]
+            d2 = ctx.rust.ask('fen ' + f)
+            if not d2 or d2[0].startswith('!'): continue
+            v1 = ctx.corr('eval ' + d1); v2 = ctx.rust.ask('eval ' + d2[0])
+            if v1 != v2:
+                ctx.oracle_fail('eval-depends-on-how-position-was-reached', f'play {base} ; ' + ' '.join(moves), {'fen': f, 'after_play': v1, 'from_fen': v2}); break
     # malformed stream: arbitrary (ill-formed) dumps, compared only
     for _ in range(100 if ctx.quick else 2000):
         g = {'bbs': [rng.getrandbits(64) & rng.getrandbits(64) & rng.getrandbits(64) for _ in range(12)], 'w': rng.getrandbits(64), 'b': rng.getrandbits(64), 'a': rng.getrandbits(64),
@@ -1025,3 +1079,748 @@ RULES = {
  'C16': 'seeded legal positions, each with randomised irrelevant fields, switched side and colour mirror; distinct = distinct placements',
 }
 ASSUME = {p: ['positions are identified with their 64-bit keys where the engine does so', 'spec playouts reach a representative set of legal positions (distribution reported in coverage.input_distribution)'] for p in ['C01', 'C02', 'C04', 'C05', 'C14', 'C16']}
+
+
+# ------------------------------------------------------------------------------------------------
+# search-level checks
+# ------------------------------------------------------------------------------------------------
+
+class SearchOut:
+    def __init__(self, lines):
+        self.lines = lines
+        self.infos = [l for l in lines if l.startswith('info ')]
+        self.bestmove = next((l.split()[1] for l in lines if l.startswith('bestmove ')), None)
+        self.n_bestmove = sum(1 for l in lines if l.startswith('bestmove '))
+        self.evs = [l[3:] for l in lines if l.startswith('ev ')]
+        self.readyok = sum(1 for l in lines if l == 'readyok')
+        d = {}
+        for l in lines:
+            if l.startswith('result '):
+                for kv in l.split()[1:]:
+                    k, _, v = kv.partition('='); d[k] = v
+            elif l.startswith('polls'): d['polls'] = [int(x) for x in l.split()[1:]]
+            elif l.startswith('end '): d['end'] = l
+            elif l.startswith('unchanged '): d['unchanged'] = l
+            elif l.startswith('poststop '): d['poststop'] = int(l.split()[1])
+            elif l.startswith('trace '): d['trace'] = l.split()[1]; d['events'] = int(l.split()[2])
+            elif l.startswith('deferred'): d['deferred'] = l[9:]
+            elif l.startswith('pending'): d['pending'] = l[8:]
+        self.r = d
+        self.panic = any(l.startswith('!') for l in lines)
+        self.nodes = int(d.get('nodes', '0') or 0)
+
+MODEL_NODE_LIMIT_QUICK = 40000
+MODEL_NODE_LIMIT_THOROUGH = 400000
+
+def run_search(ctx, pos, opts, model=True):
+    """`search <pos> ; <opts>` on the engine, and on the model when the search is small enough to replay there"""
+    cmd = f'search {pos} ; {opts}'
+    r = mask_time(ctx.rust.ask(cmd))
+    so = SearchOut(r)
+    ctx.evaluations += 1
+    ctx.count('searches')
+    limit = MODEL_NODE_LIMIT_QUICK if ctx.quick else MODEL_NODE_LIMIT_THOROUGH
+    if model and so.nodes <= limit:
+        m = ctx.model.ask(cmd)
+        ctx.corr_cmds['search'] = ctx.corr_cmds.get('search', 0) + 1
+        ctx.count('searches-replayed-on-model')
+        if r != m:
+            first = next((i for i, (a, b) in enumerate(itertools.zip_longest(r, m)) if a != b), 0)
+            ctx.disagreements.append({'command': cmd[:1500], 'first_diff_line': first, 'engine': (r[first] if first < len(r) else None)[:300] if first < len(r) else None,
+                                      'model': (m[first][:300] if first < len(m) else None)})
+    else:
+        ctx.count('searches-engine-only')
+    return so
+
+def pos_args(base, moves):
+    return ('startpos' if base == START_FEN else 'fen ' + base) + (' moves ' + ' '.join(moves) if moves else '')
+
+def search_roots(ctx, n, small=False, nonterminal=True):
+    """(base, moves, final fen) roots for searches: corpus roots and points along seeded games"""
+    out = []
+    games = ctx.gen.games(n * 2, maxlen=40)
+    for base, moves, fens in games:
+        k = ctx.gen.rng.randrange(0, len(moves) + 1) if moves else 0
+        fen = fens[k - 1] if k else base
+        info = legal_info(ctx, fen)
+        if not info: continue
+        if nonterminal and info[3] != 'no': continue
+        if small and sum(c.isalpha() for c in fen.split()[0]) > 12: continue
+        out.append((base, moves[:k], fen, info))
+        if len(out) >= n: break
+    return out
+
+def with_halfmove(fen, h):
+    p = fen.split(); p[4] = str(h); return ' '.join(p)
+
+
+def check_C03(ctx):
+    consts_compare(ctx, ['MAX_PLY', 'INPUT_POLL_INTERVAL', 'SQUARE_STRINGS', 'PIECE_STRINGS'])
+    rng = ctx.gen.rng
+    roots = search_roots(ctx, 60 if ctx.quick else 1200)
+    for line in load_regressions('C03'):
+        pos, _, opts = line.partition(' ; ')
+        roots_extra = None
+        so = run_search(ctx, pos, opts)
+    def judge(pos, fen, legal, opts, so):
+        if so.panic or so.n_bestmove != 1:
+            ctx.oracle_fail('go-not-answered-with-one-bestmove', f'search {pos} ; {opts}', {'bestmove_lines': so.n_bestmove, 'tail': so.lines[-3:]})
+        elif so.bestmove not in legal:
+            ctx.oracle_fail('bestmove-not-legal', f'search {pos} ; {opts}', {'bestmove': so.bestmove, 'fen': fen, 'legal': sorted(legal)[:40]})
+    for base, moves, fen, info in roots:
+        legal = info[0]
+        classify(ctx, fen, *info)
+        pos = pos_args(base, moves)
+        d = rng.choice([1, 2, 3, 3, 4])
+        full = run_search(ctx, pos, f'depth={d} pollmask=31')
+        judge(pos, fen, legal, f'depth={d} pollmask=31', full)
+        npolls = len(full.r.get('polls', []))
+        ks = list(range(min(npolls, 12))) + sorted(rng.sample(range(npolls), min(npolls, 6 if ctx.quick else 40)))
+        for k in sorted(set(ks)):
+            opts = f'depth={d} pollmask=31 stop={k}'
+            so = run_search(ctx, pos, opts)
+            ctx.count('stop-points')
+            judge(pos, fen, legal, opts, so)
+        for opts in [f'depth={d} maxtime=0', 'depth=-1 stop=0', 'depth=-1 stop=3 pollmask=15', f'depth={d} inject=0:quit', f'depth={d} inject=1:isready inject=2:stop pollmask=15']:
+            so = run_search(ctx, pos, opts)
+            judge(pos, fen, legal, opts, so)
+    # every half-move-clock value 0..150 (the root drops into quiescence at exactly 100)
+    hm_roots = [r for r in roots if 'K' in r[2]][: (4 if ctx.quick else 30)]
+    for base, moves, fen, info in hm_roots:
+        for h in (list(range(0, 151, 7)) + [98, 99, 100, 101, 149, 150] if ctx.quick else range(0, 151)):
+            f2 = with_halfmove(fen, h)
+            inf2 = legal_info(ctx, f2)
+            if not inf2 or inf2[3] != 'no': continue
+            for opts in ['depth=2', 'depth=3 stop=0', 'depth=2 stop=1 pollmask=7']:
+                so = run_search(ctx, 'fen ' + f2, opts)
+                ctx.count('halfmove-clock-cases')
+                judge('fen ' + f2, f2, inf2[0], opts, so)
+    # the real binary, real time: all go forms
+    blackbox_go_forms(ctx, roots[: (6 if ctx.quick else 60)])
+    ctx.sample({'input': f'search {pos_args(*roots[0][:2])} ; depth=3 pollmask=31 stop=2', 'engine': run_search(ctx, pos_args(*roots[0][:2]), 'depth=3 pollmask=31 stop=2', model=False).lines[-9:]})
+
+
+def uci_session(lines_with_delays, timeout=20, binary=None, env=None):
+    """drive the unguarded binary through pipes; items are strings (lines) or numbers (seconds to sleep).
+    returns (stdout lines, returncode or None if it had to be killed)"""
+    p = subprocess.Popen([binary or PLAIN_BIN], stdin=subprocess.PIPE, stdout=subprocess.PIPE, stderr=subprocess.DEVNULL, text=True, bufsize=1, env=env or env_offline())
+    try:
+        for it in lines_with_delays:
+            if isinstance(it, (int, float)):
+                time.sleep(it)
+            elif it == '<EOF>':
+                p.stdin.close()
+            else:
+                p.stdin.write(it + '\n'); p.stdin.flush()
+        try:
+            out, _ = p.communicate(timeout=timeout)
+            return out.split('\n'), p.returncode
+        except subprocess.TimeoutExpired:
+            p.kill()
+            out, _ = p.communicate()
+            return out.split('\n'), None
+    except BrokenPipeError:
+        out = p.stdout.read()
+        return out.split('\n'), p.poll()
+
+
+def blackbox_go_forms(ctx, roots):
+    rng = ctx.gen.rng
+    for base, moves, fen, info in roots:
+        legal = info[0]
+        pos = 'position ' + pos_args(base, moves)
+        forms = ['go depth 2', 'go movetime 0', 'go movetime 30', 'go wtime 1 btime 1', 'go wtime 2500 btime 2500', 'go wtime 1500 btime 1500 winc 100 binc 100',
+                 'go wtime 60000 btime 60000 movestogo 1', 'go wtime 300 btime 300 winc 5000 binc 5000', 'go', 'go infinite']
+        script = [pos]
+        for f in forms:
+            script.append(f)
+            if f in ('go', 'go infinite'):
+                script += [rng.choice([0, 0.001, 0.02]), 'stop']
+            script += [0.25 if 'wtime 2500' not in f and 'movestogo 1' not in f else 0.4]
+        script += ['quit']
+        out, rc = uci_session(script, timeout=30)
+        ctx.count('blackbox-go-commands', len(forms))
+        best = [l.split()[1] for l in out if l.startswith('bestmove ')]
+        if rc != 0 or len(best) != len(forms):
+            ctx.oracle_fail('blackbox-go-not-answered', {'script': script}, {'bestmoves': best, 'rc': rc})
+        for b in best:
+            if b not in legal:
+                ctx.oracle_fail('blackbox-bestmove-not-legal', {'script': script}, {'bestmove': b, 'fen': fen})
+
+
+def succ_info(ctx, fen, cache):
+    if fen in cache: return cache[fen]
+    o = ctx.model.ask('oracle succ ' + fen)
+    succ, nul, term = set(), None, 'no'
+    for l in o:
+        if l.startswith('null '): nul = l[5:]
+        elif l.startswith('terminal '): term = l.split()[1]
+        elif not l.startswith('!'):
+            succ.add(' '.join(l.split()[1:5]))
+    cache[fen] = (succ, nul, term)
+    return cache[fen]
+
+
+def audit_trace(ctx, cmd, so, hist_idents, cache, abs_cache):
+    """C06/C07 oracle over a full trace: every node is a well-formed position reached from its parent by one legal move
+    or a pass made while not in check; ply limits; repetition decisions; terminal verdicts"""
+    stack = {}      # ply -> (fen of node)
+    evs = so.evs
+    n_nodes = 0
+    for i, e in enumerate(evs):
+        t = e.split(' ')
+        if t[0] in ('N', 'Q'):
+            n_nodes += 1
+            ply = int(t[1])
+            dump = e.split(' | ')[1]
+            if dump in abs_cache:
+                ab = abs_cache[dump]
+            else:
+                ab = ctx.model.ask('oracle absfen ' + dump); abs_cache[dump] = ab
+            if len(ab) != 2:
+                ctx.oracle_fail('search-node-unreadable', cmd, {'event': e[:200]}); return
+            fen, wf = ab[0], ab[1][3:].strip()
+            ident = ' '.join(fen.split()[:4])
+            if wf:
+                ctx.oracle_fail('search-examines-inconsistent-position', cmd, {'event_index': i, 'ply': ply, 'defects': wf, 'fen': fen}); return
+            if ply > 64 or (t[0] == 'N' and ply > 63):
+                ctx.oracle_fail('search-beyond-ply-limit', cmd, {'event_index': i, 'ply': ply, 'kind': t[0]}); return
+            if ply > 0:
+                if t[0] == 'Q' and ply in stack and stack[ply][1] == i - 1 - stack[ply][2]:
+                    pass
+                par = stack.get(ply - 1)
+                # quiescence entered from negamax at the same ply re-examines the same position
+                same = stack.get(ply)
+                if t[0] == 'Q' and same is not None and same[0] == fen and same[3] == 'N' and same[4]:
+                    pass
+                elif par is None:
+                    ctx.oracle_fail('search-node-without-parent', cmd, {'event_index': i}); return
+                else:
+                    succ, nul, term = succ_info(ctx, par[0], cache)
+                    if ident not in succ and ident != nul:
+                        ctx.oracle_fail('search-node-not-a-legal-successor', cmd, {'event_index': i, 'parent': par[0], 'child': fen}); return
+                    if ident == nul and ident not in succ: ctx.count('null-move-nodes')
+            stack[ply] = (fen, i, 0, t[0], True)
+            for q in [k for k in stack if k > ply]: del stack[q]
+            # repetition decision of this node (C07): next event tells
+            if t[0] == 'N' and ply > 0:
+                nxt = evs[i + 1].split(' ') if i + 1 < len(evs) else ['']
+                is_rep = nxt[0] == 'rep' and int(nxt[1]) == ply
+                if ident in hist_idents:
+                    ctx.count('nodes-repeating-history')
+                    if not is_rep:
+                        ctx.oracle_fail('repetition-of-game-history-not-scored-as-draw', cmd, {'event_index': i, 'ply': ply, 'fen': fen, 'next_event': ' '.join(nxt)[:80]}); return
+                elif is_rep:
+                    ctx.oracle_fail('node-treated-as-repetition-without-earlier-occurrence', cmd, {'event_index': i, 'ply': ply, 'fen': fen}); return
+        elif t[0] == 'verdict':
+            ply = int(t[1])
+            node = stack.get(ply)
+            if node:
+                succ, nul, term = succ_info(ctx, node[0], cache)
+                ctx.count('terminal-verdicts')
+                if term != t[3]:
+                    ctx.oracle_fail('wrong-terminal-verdict', cmd, {'event_index': i, 'fen': node[0], 'engine': t[3], 'rules': term}); return
+    ctx.count('trace-nodes-audited', n_nodes)
+
+
+def check_C06(ctx):
+    consts_compare(ctx, ['MAX_PLY'])
+    cache, abs_cache = {}, {}
+    roots = search_roots(ctx, 40 if ctx.quick else 600)
+    for base, moves, fen, info in roots:
+        classify(ctx, fen, *info)
+        pos = pos_args(base, moves)
+        spec = ctx.model.ask(f'oracle play {base} ; ' + ' '.join(moves))
+        hist = {' '.join(f.split()[:4]) for f in spec}
+        d = 2 if sum(c.isalpha() for c in fen.split()[0]) > 10 else 3
+        so = run_search(ctx, pos, f'depth={d} trace=full')
+        if len(so.evs) < 60000:
+            audit_trace(ctx, f'search {pos} ; depth={d} trace=full', so, hist, cache, abs_cache)
+        # larger searches, cold and warm table: digest against the model only
+        so2 = run_search(ctx, pos, f'depth={d + 1} trace=digest tt=keep')
+    # deep lines: the ply limit (sparse endgames reach ply 63 through check extensions and depth 64)
+    for fen, d in [('4k3/8/8/8/8/8/8/4K3 w - - 0 1', 64), ('8/8/8/4k3/8/4K3/4P3/8 w - - 0 1', 30), ('4k3/8/8/8/8/8/8/4K3 w - - 0 1', -1)]:
+        so = run_search(ctx, 'fen ' + fen, f'depth={d} trace=digest', model=False)
+        ctx.count('deep-searches')
+        if so.panic or so.n_bestmove != 1:
+            ctx.oracle_fail('deep-search-fails', f'search fen {fen} ; depth={d}', {'tail': so.lines[-3:]})
+    if not ctx.quick:
+        so = run_search(ctx, 'fen 8/8/8/4k3/8/4K3/4P3/8 w - - 0 1', 'depth=62 trace=digest', model=False)
+        if so.panic: ctx.oracle_fail('deep-search-fails', 'search fen 8/8/8/4k3/8/4K3/4P3/8 w - - 0 1 ; depth=62', {'tail': so.lines[-3:]})
+    ctx.sample({'input': f'search {pos_args(*roots[0][:2])} ; depth=2 trace=full', 'first_events': run_search(ctx, pos_args(*roots[0][:2]), 'depth=2 trace=full', model=False).evs[:3]})
+
+
+def shuffle_games(ctx, n):
+    """games whose histories contain reversible shuffling, so that searches meet history positions"""
+    rng = ctx.gen.rng
+    bases = ['4k3/8/8/8/8/8/8/R3K2R w - - 0 1', '6k1/5ppp/8/8/8/8/5PPP/3R2K1 w - - 0 1', '1n2k1n1/8/8/8/8/8/8/1N2K1N1 w - - 0 1', START_FEN,
+             'r3k2r/pppq1ppp/2n2n2/3pp3/3PP3/2N2N2/PPPQ1PPP/R3K2R w KQkq - 0 1', '3qk3/8/8/8/8/8/8/3QK3 w - - 0 1', 'k7/8/1R6/8/8/8/4PPPP/4K2R w K - 0 1',
+             '8/8/8/4k3/8/8/8/R3K3 w - - 0 1', '2r3k1/pp3ppp/3p4/3P4/1q2P3/5Q2/PP3PPP/5RK1 b - - 0 20']
+    out = []
+    for i in range(n):
+        base = bases[i % len(bases)]
+        fen = base
+        moves = []
+        prev = []
+        for step in range(rng.choice([2, 4, 6, 8, 10, 12])):
+            info = legal_info(ctx, fen)
+            if not info or not info[0]: break
+            legal = sorted(info[0] - info[1])  or sorted(info[0])      # prefer quiet (reversible) moves
+            back = None
+            if len(moves) >= 2:
+                last = moves[-2]
+                back = last[2:4] + last[0:2]
+            mv = back if back in legal and rng.random() < 0.75 else rng.choice([m for m in legal if len(m) == 4] or legal)
+            o = ctx.model.ask(f'oracle play {fen} ; {mv}')
+            if len(o) != 2 or o[1].startswith('!'): break
+            moves.append(mv); fen = o[1]
+        out.append((base, moves))
+    return out
+
+
+def check_C07(ctx):
+    cache, abs_cache = {}, {}
+    games = [tuple(l.split(' ; ')) for l in load_regressions('C07')]
+    games = [(b, m.split()) for b, m in games] + shuffle_games(ctx, 36 if ctx.quick else 500)
+    for base, moves in games:
+        spec = ctx.model.ask(f'oracle play {base} ; ' + ' '.join(moves))
+        if any(f.startswith('!') for f in spec): continue
+        ctx.count('games'); ctx.count('history-plies', len(moves))
+        # walk the game: search after each of the last few moves, keeping the table (warm TT holds scores for history positions)
+        first = True
+        for k in range(max(0, len(moves) - 4), len(moves) + 1):
+            hist = {' '.join(f.split()[:4]) for f in spec[:k + 1]}
+            fen = spec[k]
+            info = legal_info(ctx, fen)
+            if not info or info[3] != 'no': continue
+            pieces = sum(c.isalpha() for c in fen.split()[0])
+            d = 4 if pieces <= 6 else 3
+            pos = pos_args(base, moves[:k])
+            cmd_opts = f'depth={d} trace=full tt={"cold" if first else "keep"}'
+            first = False
+            so = run_search(ctx, pos, cmd_opts)
+            ctx.nontrivial.add((base, tuple(moves[:k])))
+            if len(so.evs) < 80000:
+                audit_trace(ctx, f'search {pos} ; {cmd_opts}', so, hist, cache, abs_cache)
+    ctx.sample({'input': f'search {pos_args(games[0][0], games[0][1])} ; depth=3 trace=full tt=keep'})
+
+
+def check_C09(ctx):
+    r, m = consts_compare(ctx, ['INPUT_POLL_INTERVAL', 'MAX_PLY'])
+    interval = int(r.get('INPUT_POLL_INTERVAL', '16383'))
+    if interval + 1 > 65536:
+        ctx.oracle_fail('poll-interval-too-large', 'consts', {'INPUT_POLL_INTERVAL': interval})
+    rng = ctx.gen.rng
+    # cadence with the real mask, on searches large enough to have many poll points
+    big = [(START_FEN, 7), ('r3k2r/p1ppqpb1/bn2pnp1/3PN3/1p2P3/2N2Q1p/PPPBBPPP/R3K2R w KQkq - 0 1', 6), ('8/2p5/3p4/KP5r/1R3p1k/8/4P1P1/8 w - - 0 1', 9),
+           ('r4rk1/1pp1qppp/p1np1n2/2b1p1B1/2B1P1b1/P1NP1N2/1PP1QPPP/R4RK1 w - - 0 10', 6)]
+    for fen, d in big[: (3 if ctx.quick else 4)]:
+        so = run_search(ctx, 'fen ' + fen, f'depth={d}', model=False)
+        polls = so.r.get('polls', [])
+        ctx.count('cadence-searches'); ctx.count('real-mask-polls', len(polls))
+        gaps = [b - a for a, b in zip(polls, polls[1:])]
+        if not polls or polls[0] != 0 or (gaps and max(gaps) > interval + 1) or (so.nodes - polls[-1] > interval + 1):
+            ctx.oracle_fail('poll-cadence', f'search fen {fen} ; depth={d}', {'first_poll_at': polls[:1], 'max_gap': max(gaps) if gaps else None, 'nodes': so.nodes, 'interval': interval})
+        # stop at a real poll point in the middle
+        if len(polls) > 2:
+            k = rng.randrange(1, len(polls))
+            so2 = run_search(ctx, 'fen ' + fen, f'depth={d} stop={k}', model=False)
+            judge_stop(ctx, f'search fen {fen} ; depth={d} stop={k}', so2, None)
+    # every stop point of bounded searches (dense poll points)
+    roots = search_roots(ctx, 30 if ctx.quick else 400)
+    for base, moves, fen, info in roots:
+        classify(ctx, fen, *info)
+        pos = pos_args(base, moves)
+        d = rng.choice([2, 3, 3, 4])
+        mask = rng.choice([7, 15, 63])
+        full = run_search(ctx, pos, f'depth={d} pollmask={mask} trace=full')
+        npolls = len(full.r.get('polls', []))
+        ks = sorted(set(list(range(min(npolls, 10))) + (rng.sample(range(npolls), min(npolls, 8 if ctx.quick else 60)))))
+        first_legal = rows(ctx.rust.ask('gen ' + fen)).get('uci', '').split()[:1]
+        for k in ks:
+            opts = f'depth={d} pollmask={mask} trace=full stop={k}'
+            so = run_search(ctx, pos, opts)
+            ctx.count('stop-points')
+            ctx.nontrivial.add((fen, d, mask, k))
+            judge_stop(ctx, f'search {pos} ; {opts}', so, first_legal[0] if first_legal else None)
+        # deadline already passed, and a non-stop line arriving mid-search
+        for opts in [f'depth={d} maxtime=0 trace=full', f'depth={d} pollmask={mask} trace=full inject=2:ucinewgame']:
+            so = run_search(ctx, pos, opts)
+            judge_stop(ctx, f'search {pos} ; {opts}', so, first_legal[0] if first_legal else None)
+    # real time: the deadline is honoured (budget 0 and small budgets answer promptly)
+    for form, limit in [('go movetime 0', 1.0), ('go movetime 50', 1.5), ('go wtime 40 btime 40', 1.0), ('go wtime 1900 btime 1900 winc 400 binc 400', 1.0)]:
+        t0 = time.time()
+        out, rc = uci_session(['position startpos', form, 2.5, 'quit'], timeout=10)
+        ctx.count('realtime-deadline-runs')
+        # find when bestmove arrived is not observable line by line here; require that it is present well before quit was sent
+        if not any(l.startswith('bestmove') for l in out) or rc != 0:
+            ctx.oracle_fail('deadline-not-honoured', {'script': ['position startpos', form, 'wait 2.5s', 'quit']}, {'output_tail': out[-3:], 'rc': rc})
+    ctx.sample({'input': f'search {pos_args(*roots[0][:2])} ; depth=3 pollmask=15 trace=full stop=2'})
+
+
+def judge_stop(ctx, cmd, so, first_legal):
+    """the property on one stopped search: nothing written after the stop, bounded further work, answer = PV head at the stop"""
+    if so.panic or so.n_bestmove != 1:
+        ctx.oracle_fail('stopped-search-not-answered', cmd, {'tail': so.lines[-3:]}); return
+    if so.r.get('poststop', 0) != 0:
+        ctx.oracle_fail('pv-or-tt-written-after-stop', cmd, {'writes_after_stop': so.r.get('poststop')}); return
+    if not so.evs: return
+    # locate the poll at which the search was told to stop: the last poll event (polling ceases once stopping)
+    stop_idx = None
+    stopped = 'stopping=1' in so.r.get('end', '')
+    if not stopped: return
+    for i in range(len(so.evs) - 1, -1, -1):
+        if so.evs[i].startswith('poll '):
+            stop_idx = i; break
+    if stop_idx is None: return
+    after = so.evs[stop_idx + 1:]
+    n_after = sum(1 for e in after if e.startswith('N '))
+    if n_after > 2 * 64 + 4:
+        ctx.oracle_fail('unbounded-work-after-stop', cmd, {'negamax_nodes_after_stop': n_after}); return
+    if any(e.startswith('pv ') or e.startswith('ttrec ') for e in after):
+        ctx.oracle_fail('pv-or-tt-written-after-stop', cmd, {'event': next(e for e in after if e.startswith('pv ') or e.startswith('ttrec '))}); return
+    if any(l.startswith('info ') for l in so.lines[so.lines.index('ev ' + so.evs[stop_idx]):]):
+        ctx.oracle_fail('info-line-after-stop', cmd, {}); return
+    head = None
+    for e in so.evs[:stop_idx]:
+        if e.startswith('pv 0 '): head = e.split()[2]
+    expect = hex_to_uci(head) if head else first_legal
+    if expect and so.bestmove != expect:
+        ctx.oracle_fail('answer-differs-from-best-move-at-stop', cmd, {'bestmove': so.bestmove, 'pv_head_when_stopped': expect})
+
+
+INFO_RE = re.compile(r'^info score (cp -?\d+|mate -?\d+) depth (\d+) nodes (\d+) time (\d+) pv((?: [a-h][1-8][a-h][1-8][qrbn]?)*) $')
+
+def check_info_lines(ctx, cmd, fen, so):
+    last_d, last_n = 0, 0
+    for l in so.infos:
+        m = INFO_RE.match(l)
+        if not m:
+            ctx.oracle_fail('info-line-malformed', cmd, {'line': l}); return
+        d, n = int(m.group(2)), int(m.group(3))
+        if d <= last_d or n < last_n:
+            ctx.oracle_fail('info-depth-or-nodes-not-monotone', cmd, {'line': l, 'previous_depth': last_d, 'previous_nodes': last_n}); return
+        last_d, last_n = d, n
+        pv = m.group(5).split()
+        o = ctx.model.ask(f'oracle line {fen} ; ' + ' '.join(pv))
+        ctx.count('info-lines'); ctx.count('pv-moves', len(pv))
+        if not o or not o[0].startswith('legal'):
+            ctx.oracle_fail('pv-not-a-legal-line', cmd, {'line': l, 'fen': fen}); return
+        # C11: mate announcements
+        sc = m.group(1)
+        if sc.startswith('mate'):
+            N = int(sc.split()[1])
+            ctx.count('mate-scores')
+            if o[0] == 'legal mate':
+                want = 2 * N - 1 if N > 0 else 2 * (-N)
+                if len(pv) != want:
+                    ctx.oracle_fail('mate-distance-differs-from-pv-length', cmd, {'line': l, 'pv_plies': len(pv), 'expected_plies': want, 'fen': fen}); return
+
+
+def check_C12(ctx):
+    roots = search_roots(ctx, 50 if ctx.quick else 800)
+    for base, moves, fen, info in roots:
+        classify(ctx, fen, *info)
+        pos = pos_args(base, moves)
+        d = 4 if sum(c.isalpha() for c in fen.split()[0]) <= 16 else 3
+        for opts in [f'depth={d}', f'depth={d + 1} tt=keep', f'depth={d} tt=keep']:
+            so = run_search(ctx, pos, opts)
+            ctx.nontrivial.add((fen, opts))
+            check_info_lines(ctx, f'search {pos} ; {opts}', fen, so)
+    # histories with shuffling, warm tables along a game (stale PV tails behind draws and TT cut-offs)
+    for base, moves in shuffle_games(ctx, 16 if ctx.quick else 300):
+        spec = ctx.model.ask(f'oracle play {base} ; ' + ' '.join(moves))
+        if any(f.startswith('!') for f in spec): continue
+        first = True
+        for k in range(max(0, len(moves) - 3), len(moves) + 1):
+            fen = spec[k]
+            info = legal_info(ctx, fen)
+            if not info or info[3] != 'no': continue
+            pos = pos_args(base, moves[:k])
+            d = 5 if sum(c.isalpha() for c in fen.split()[0]) <= 6 else 4
+            opts = f'depth={d} tt={"cold" if first else "keep"}'
+            first = False
+            so = run_search(ctx, pos, opts)
+            ctx.count('history-searches')
+            check_info_lines(ctx, f'search {pos} ; {opts}', fen, so)
+    # a longer game with the table kept throughout (self-play)
+    for base in [START_FEN, 'r3k2r/p1ppqpb1/bn2pnp1/3PN3/1p2P3/2N2Q1p/PPPBBPPP/R3K2R w KQkq - 0 1'][: (1 if ctx.quick else 2)]:
+        moves = []
+        fen = base
+        for ply in range(10 if ctx.quick else 60):
+            so = run_search(ctx, pos_args(base, moves), f'depth=4 tt={"cold" if ply == 0 else "keep"}')
+            check_info_lines(ctx, f'search {pos_args(base, moves)} ; depth=4 tt=keep (self-play ply {ply})', fen, so)
+            if not so.bestmove: break
+            o = ctx.model.ask(f'oracle play {fen} ; {so.bestmove}')
+            if len(o) != 2 or o[1].startswith('!'): break
+            moves.append(so.bestmove); fen = o[1]
+            if legal_info(ctx, fen)[3] != 'no': break
+    ctx.sample({'input': f'search {pos_args(*roots[0][:2])} ; depth=3', 'info': run_search(ctx, pos_args(*roots[0][:2]), 'depth=3', model=False).infos[:3]})
+
+
+def mate_positions(ctx, n):
+    """positions with a forced mate in 1-2 for either side, found with the rules' exhaustive search"""
+    rng = ctx.gen.rng
+    seeds = ['1k6/8/1K6/8/8/8/8/7R w - - 0 1', 'k7/8/1K6/8/8/8/8/7R b - - 0 1', '7r/8/8/8/8/1k6/8/1K6 b - - 0 1', '6k1/8/6K1/8/8/8/8/R7 w - - 0 1',
+             'r7/8/8/8/8/6k1/8/6K1 b - - 0 1', '6k1/5ppp/8/8/8/8/5PPP/3R2K1 w - - 0 1', '6rk/6pp/7N/8/8/8/8/6K1 w - - 0 1', '3qk3/8/8/8/8/8/8/3QK3 w - - 0 1',
+             '8/8/8/4k3/8/8/8/R3K3 w - - 0 1', '4k3/8/4K3/8/8/8/8/7Q w - - 0 1', '7k/5Q2/5K2/8/8/8/8/8 w - - 0 1', 'kb6/p7/8/5p2/4P3/8/8/5BK1 w - - 0 1',
+             'rnbqkbnr/pppp1ppp/8/4p3/6P1/5P2/PPPPP2P/RNBQKBNR b KQkq - 0 2', 'r1bqkb1r/pppp1ppp/2n2n2/4p2Q/2B1P3/8/PPPP1PPP/RNB1K1NR w KQkq - 4 4',
+             '6k1/5ppp/8/8/8/8/r4PPP/1R4K1 w - - 0 1', '5rk1/5ppp/8/8/8/8/5PPP/R5K1 b - - 0 1', '8/8/8/8/8/5k2/7q/7K w - - 0 1', '8/8/8/8/8/6k1/4q3/7K b - - 0 1',
+             '2kr4/ppp5/8/8/8/8/5PPP/3R2K1 w - - 0 1', 'k7/2Q5/1K6/8/8/8/8/8 b - - 0 1', 'k7/8/KQ6/8/8/8/8/8 w - - 0 1', '8/8/8/8/8/k1K5/8/1R6 w - - 0 1']
+    out = {}
+    pool = list(seeds)
+    tries = 0
+    while len(out) < n and tries < 40 * n:
+        tries += 1
+        base = rng.choice(seeds)
+        mv, fens = ctx.gen.playout(base, rng.choice([0, 1, 2, 3, 4, 6]), rng.choice([0, 4, 7]))
+        cand = [base] + fens
+        fen = rng.choice(cand)
+        if fen in out: continue
+        if sum(c.isalpha() for c in fen.split()[0]) > 9: continue
+        o = ctx.model.ask(f'oracle mate {fen} ; 2')
+        if len(o) < 3 or o[2] != 'terminal no': continue
+        mi = o[0]; mw = o[1]
+        kind = None
+        if '[1' in mi: kind = 'mate-in-1'
+        elif mi.endswith('1]'): kind = 'mate-in-2'
+        elif '[1' in mw: kind = 'mated-in-1'
+        elif mw.endswith('1]'): kind = 'mated-in-2'
+        if kind: out[fen] = kind
+    return out
+
+
+def check_C11(ctx):
+    consts_compare(ctx, ['MATE_VALUE', 'MATE_BOUND', 'INFINITY', 'MAX_PLY'])
+    mp = mate_positions(ctx, 90 if ctx.quick else 1500)
+    for line in load_regressions('C11'):
+        mp[line] = 'regression'
+    for fen, kind in mp.items():
+        ctx.count(kind)
+        for d in ([3, 5] if ctx.quick else [3, 4, 5, 6]):
+            cmd = f'search fen {fen} ; depth={d}'
+            so = run_search(ctx, 'fen ' + fen, f'depth={d}')
+            ctx.nontrivial.add((fen, d))
+            check_info_lines(ctx, cmd, fen, so)
+            if not so.infos: continue
+            last = INFO_RE.match(so.infos[-1])
+            if not last: continue
+            sc = last.group(1)
+            if kind == 'mate-in-1':
+                o = ctx.model.ask(f'oracle line {fen} ; {so.bestmove}')
+                if sc != 'mate 1' or o != ['legal mate']:
+                    ctx.oracle_fail('mate-in-one-not-announced-or-not-played', cmd, {'last_info': so.infos[-1], 'bestmove': so.bestmove, 'fen': fen})
+            for l in so.infos:
+                m = INFO_RE.match(l)
+                if not m or not m.group(1).startswith('mate'): continue
+                N = int(m.group(1).split()[1])
+                if abs(N) <= 2 and N != 0:
+                    o = ctx.model.ask(f'oracle mate {fen} ; {abs(N)}')
+                    ok = (o[0].endswith('1]') if N > 0 else o[1].endswith('1]')) if len(o) >= 2 else False
+                    if not ok:
+                        ctx.oracle_fail('mate-announcement-untrue', cmd, {'line': l, 'fen': fen, 'rules': o[:2]})
+    # warm table along a short game: mate scores re-based through the table keep their meaning
+    for fen, kind in list(mp.items())[: (20 if ctx.quick else 300)]:
+        if kind not in ('mate-in-2', 'mated-in-2'): continue
+        so = run_search(ctx, 'fen ' + fen, 'depth=5 tt=cold')
+        if not so.bestmove: continue
+        o = ctx.model.ask(f'oracle play {fen} ; {so.bestmove}')
+        if len(o) != 2 or o[1].startswith('!'): continue
+        f2 = o[1]
+        if legal_info(ctx, f2)[3] != 'no': continue
+        for f, opts in [(f2, 'depth=5 tt=keep'), (fen, 'depth=5 tt=keep')]:
+            cmd = f'search fen {f} ; {opts}'
+            so2 = run_search(ctx, 'fen ' + f, opts)
+            ctx.count('warm-table-mate-searches')
+            check_info_lines(ctx, cmd, f, so2)
+            for l in so2.infos:
+                m = INFO_RE.match(l)
+                if m and m.group(1).startswith('mate'):
+                    N = int(m.group(1).split()[1])
+                    if 0 < abs(N) <= 2:
+                        oo = ctx.model.ask(f'oracle mate {f} ; {abs(N)}')
+                        ok = (oo[0].endswith('1]') if N > 0 else oo[1].endswith('1]')) if len(oo) >= 2 else False
+                        if not ok:
+                            ctx.oracle_fail('mate-announcement-untrue', cmd + ' (after a previous search, table kept)', {'line': l, 'fen': f, 'rules': oo[:2]})
+    ctx.sample({'input': 'search fen k7/8/1K6/8/8/8/8/7R b - - 0 1 ; depth=5', 'info': run_search(ctx, 'fen k7/8/1K6/8/8/8/8/7R b - - 0 1', 'depth=5', model=False).infos[-1:]})
+
+
+def check_C17(ctx):
+    rng = ctx.gen.rng
+    roots = search_roots(ctx, 40 if ctx.quick else 600, nonterminal=False)
+    for base, moves, fen, info in roots:
+        classify(ctx, fen, *info)
+        pos = pos_args(base, moves)
+        want_idx = len(moves) + 1
+        d = rng.choice([1, 2, 3, 4])
+        full = run_search(ctx, pos, f'depth={d} pollmask=15')
+        npolls = len(full.r.get('polls', []))
+        variants = [f'depth={d} pollmask=15'] + [f'depth={d} pollmask=15 stop={k}' for k in sorted(set(list(range(min(6, npolls))) + rng.sample(range(npolls), min(npolls, 5 if ctx.quick else 40))))]
+        variants += [f'depth={d} maxtime=0', f'depth={d} inject=1:isready inject=3:position_startpos pollmask=7', 'depth=-1 stop=5 pollmask=31']
+        for opts in variants:
+            so = run_search(ctx, pos, opts) if opts != variants[0] else full
+            ctx.count('searches-checked'); ctx.nontrivial.add((fen, opts))
+            if so.panic: 
+                ctx.oracle_fail('search-panicked', f'search {pos} ; {opts}', {'tail': so.lines[-3:]}); continue
+            if so.r.get('unchanged') != 'unchanged game=1 rep=1' or not so.r.get('end', '').startswith(f'end ply=0 repidx={want_idx} '):
+                ctx.oracle_fail('search-changed-position-history-or-bookkeeping', f'search {pos} ; {opts}', {'end': so.r.get('end'), 'unchanged': so.r.get('unchanged'), 'expected_history_length': want_idx})
+    # black box: `d` shows the same position, and the same search answers the same, after go / perft / eval / isready
+    for base, moves, fen, info in roots[: (8 if ctx.quick else 100)]:
+        pos = 'position ' + pos_args(base, moves)
+        inter = rng.choice([['go depth 3', 0.4], ['go movetime 0', 0.2], ['go infinite', 0.05, 'stop', 0.2], ['perft 2', 0.3], ['eval'], ['isready'], ['go wtime 1 btime 1', 0.2]])
+        script = [pos, 'd', 'go depth 2', 0.3] + inter + ['d', 'go depth 2', 0.3, 'quit']
+        out, rc = uci_session(script, timeout=20)
+        ctx.count('blackbox-sessions')
+        boards = split_boards(out)
+        g2 = [i for i, l in enumerate(out) if l.startswith('info ') and ' depth 2 ' in l or l.startswith('info ') and ' depth 1 ' in l]
+        if rc != 0 or len(boards) != 2 or boards[0] != boards[1]:
+            ctx.oracle_fail('display-changed-by-inspection-command', {'script': script}, {'rc': rc, 'boards': len(boards)})
+    ctx.sample({'input': f'search {pos_args(*roots[0][:2])} ; depth=3 pollmask=15 stop=1', 'engine': run_search(ctx, pos_args(*roots[0][:2]), 'depth=3 pollmask=15 stop=1', model=False).lines[-6:]})
+
+
+def split_boards(out):
+    boards, cur = [], None
+    for l in out:
+        if '┌────' in l: cur = []
+        if cur is not None: cur.append(l)
+        if cur is not None and 'Zobrist' in l:
+            boards.append(cur); cur = None
+    return boards
+
+
+def strip_time(lines):
+    return [re.sub(r' time \d+', ' time 0', l) for l in lines if l.strip()]
+
+
+def check_C18(ctx):
+    rng = ctx.gen.rng
+    roots = search_roots(ctx, 30 if ctx.quick else 400)
+    # in-process: the same search from the same state twice; the model is a function of (position, history, table)
+    for base, moves, fen, info in roots:
+        classify(ctx, fen, *info)
+        pos = pos_args(base, moves)
+        d = rng.choice([3, 4, 5]) if sum(c.isalpha() for c in fen.split()[0]) <= 14 else rng.choice([3, 4])
+        a = run_search(ctx, pos, f'depth={d} trace=digest')
+        b = run_search(ctx, pos, f'depth={d} trace=digest')
+        ctx.nontrivial.add((fen, d))
+        if a.lines != b.lines:
+            ctx.oracle_fail('same-search-different-result', f'search {pos} ; depth={d} (twice, cold table)', {'first': a.lines[-8:-6], 'second': b.lines[-8:-6]})
+        # warm: a different search in between, then the pair again with the table kept -> compared with the model only
+        run_search(ctx, pos, f'depth={max(1, d - 1)} tt=keep')
+        run_search(ctx, pos, f'depth={d} tt=keep trace=digest')
+    # black box: whatever came before, `ucinewgame` + position + go depth d answers like a fresh process
+    for i, (base, moves, fen, info) in enumerate(roots[: (10 if ctx.quick else 150)]):
+        pos = 'position ' + pos_args(base, moves)
+        d = rng.choice([3, 4, 5])
+        fresh, rc0 = uci_session([pos, f'go depth {d}', 1.0, 'quit'], timeout=30)
+        other = roots[(i + 1) % len(roots)]
+        pre_choices = [
+            [f'position {pos_args(other[0], other[1])}', 'go depth 5', 0.6],
+            [pos, 'go depth 6', 0.8],
+            [pos, 'go infinite', 0.15, 'stop', 0.2],
+            [pos, 'go movetime 40', 0.3, 'go wtime 50 btime 50', 0.3],
+            [pos, 'go infinite', 0.1, 'isready', 0.05, 'stop', 0.2, f'position {pos_args(other[0], other[1])}', 'go depth 4', 0.5],
+            ['position startpos moves e2e4 e7e6 c2c4 d8f6', 'go depth 7', 1.2],
+        ]
+        prefix = rng.choice(pre_choices)
+        out, rc = uci_session(prefix + ['ucinewgame', pos, f'go depth {d}', 1.0, 'quit'], timeout=40)
+        ctx.count('blackbox-ucinewgame-sessions')
+        # the last search's transcript
+        def last_search(lines):
+            lines = strip_time(lines)
+            idx = [i for i, l in enumerate(lines) if l.startswith('bestmove')]
+            if not idx: return None
+            end = idx[-1]
+            start = idx[-2] + 1 if len(idx) > 1 else 0
+            return [l for l in lines[start:end + 1] if l.startswith('info') or l.startswith('bestmove')]
+        a, b = last_search(fresh), last_search(out)
+        if rc0 != 0 or rc != 0 or a is None or a != b:
+            ctx.oracle_fail('ucinewgame-not-like-fresh-process', {'prefix': prefix, 'then': ['ucinewgame', pos, f'go depth {d}']}, {'fresh': (a or [])[-2:], 'after_ucinewgame': (b or [])[-2:], 'rc': [rc0, rc]})
+    # the transposition table really is emptied: every slot, including the first and the last
+    r = rows(ctx.rust.ask('consts'))
+    size = int(r.get('TT_SIZE', '2097152'))
+    for slot in [0, 1, size - 1, size - 2, size // 2] + [rng.randrange(size) for _ in range(20)]:
+        key = slot + size * rng.randrange(1, 1000)
+        o = ctx.corr(f'tt c ; r {key:x} 5 9 E 0 ; c ; p {key:x} 0 -10 10 0')
+        ctx.count('clear-slots-probed')
+        if o != [str(UNKNOWN)]:
+            ctx.oracle_fail('entry-survives-clear', f'tt c ; r {key:x} 5 9 E 0 ; c ; p {key:x} 0 -10 10 0', {'answer': o, 'slot': slot})
+    ctx.sample({'input': f'search {pos_args(*roots[0][:2])} ; depth=4 trace=digest (twice)'})
+
+
+def check_C19(ctx):
+    consts_compare(ctx, ['MATE_VALUE', 'INFINITY', 'MAX_PLY'] + C16_ROWS)
+    roots = search_roots(ctx, 220 if ctx.quick else 5000)
+    extra = [(f, [], f, legal_info(ctx, f)) for f in load_regressions('C19')]
+    for base, moves, fen, info in extra + roots:
+        if not info or info[3] != 'no': continue
+        if int(fen.split()[4]) >= 90: continue
+        classify(ctx, fen, *info)
+        budget = 30000 if ctx.quick else 400000
+        o1 = ctx.model.ask(f'oracle minimax {fen} ; 1 ; {budget}')
+        if not o1 or o1[0].startswith('!'):
+            ctx.count('skipped-oracle-budget'); continue
+        v1 = int(o1[0])
+        v2 = None
+        for d in (1, 2):
+            cmd = f'search fen {fen} ; depth={d} tt=bypass'
+            so = run_search(ctx, 'fen ' + fen, f'depth={d} tt=bypass')
+            ctx.nontrivial.add((fen, d))
+            ctx.count(f'depth-{d}-searches')
+            got = {}
+            for l in so.infos:
+                m = INFO_RE.match(l)
+                if m:
+                    sc = m.group(1)
+                    got[int(m.group(2))] = sc
+            def to_score(sc, want):
+                if sc.startswith('cp'): return int(sc.split()[1])
+                return None   # mate N: compared through the distance only
+            if 1 not in got:
+                ctx.oracle_fail('depth-1-iteration-not-reported', cmd, {'infos': so.infos}); continue
+            s1 = to_score(got[1], v1)
+            if s1 is not None and s1 != v1:
+                ctx.oracle_fail('depth-1-score-differs-from-minimax', cmd, {'engine': got[1], 'minimax': v1, 'fen': fen}); continue
+            if s1 is None and not mate_matches(got[1], v1):
+                ctx.oracle_fail('depth-1-score-differs-from-minimax', cmd, {'engine': got[1], 'minimax': v1, 'fen': fen}); continue
+            if d == 2:
+                if v2 is None:
+                    o2 = ctx.model.ask(f'oracle minimax {fen} ; 2 ; {budget}')
+                    if not o2 or o2[0].startswith('!'):
+                        ctx.count('skipped-oracle-budget'); continue
+                    v2 = int(o2[0])
+                if 2 in got:
+                    s2 = to_score(got[2], v2)
+                    ctx.count('depth-2-inside-window')
+                    if (s2 is not None and s2 != v2) or (s2 is None and not mate_matches(got[2], v2)):
+                        ctx.oracle_fail('depth-2-score-differs-from-minimax', cmd, {'engine': got[2], 'minimax': v2, 'fen': fen})
+                else:
+                    ctx.count('depth-2-failed-window')
+                    res = int(so.r.get('score', '0'))
+                    lo, hi = v1 - 50, v1 + 50
+                    if not ((res <= lo and v2 <= lo) or (res >= hi and v2 >= hi)):
+                        ctx.oracle_fail('aspiration-failure-on-wrong-side', cmd, {'reported': res, 'window': [lo, hi], 'minimax': v2, 'fen': fen})
+    ctx.sample({'input': f'search fen {roots[0][2]} ; depth=2 tt=bypass', 'minimax': ctx.model.ask(f'oracle minimax {roots[0][2]} ; 2 ; 30000')})
+
+
+def mate_matches(sc, v, mate_value=49000):
+    N = int(sc.split()[1])
+    if v > 48000: return N == (mate_value - v) // 2 + 1
+    if v < -48000: return N == -((v + mate_value) // 2)
+    return False
+
+
+RULES.update({
+ 'C03': 'search roots from seeded games (non-terminal), each searched at depth 1-4 with the stop injected at every one of the first polls and a sample of later ones (poll points every 32 nodes), deadline already passed, quit/isready arriving mid-search, every half-move clock 0..150, plus real-time runs of all go forms on the unguarded binary; distinct = positions with special features',
+ 'C06': 'full node traces of depth-2/3 searches from seeded roots: every node checked for consistency, key, ply limit and legal-successor relation to its parent with the rules specification; larger searches by trace digest against the model; deep searches to the ply cap',
+ 'C07': 'games with reversible shuffling, searched after each of the last moves with the table kept; every non-root node of the full trace checked: in game history <=> scored as repetition',
+ 'C09': 'real-mask cadence on large searches; stop injected at every early and sampled later poll points (masks 7/15/63) of bounded searches with full traces: no PV/TT write, bounded negamax nodes after the stop, answer = PV head at the stop',
+ 'C11': 'positions with forced mates in 1-2 for either side found by the rules exhaustive search, searched at depths 3-6 cold and with a kept table',
+ 'C12': 'all info lines of cold/warm searches from seeded roots, shuffled histories and self-play: shape, monotone depth/nodes, PV replayed on the rules',
+ 'C17': 'every search variant (complete, stopped at each early poll, deadline passed, lines arriving) must leave game, history prefix, ply and history length as they were; black-box `d` before/after inspection commands',
+ 'C18': 'same search twice in one process; kept-table sequences against the model; black-box ucinewgame + position + go depth d after varied prefixes against a fresh process; clear empties every probed slot',
+ 'C19': 'non-terminal roots with half-move clock < 90, depths 1 and 2, table bypassed, against plain minimax over the rules specification',
+})
+for p in ['C03', 'C06', 'C07', 'C09', 'C11', 'C12', 'C17', 'C18', 'C19']:
+    ASSUME[p] = ['stop arrival is modelled as a line placed in the input channel just before the k-th poll (deterministic schedule); real thread timing only in the black-box runs',
+                 'searches larger than the model node limit are checked against the oracle only (counted as searches-engine-only)']
